@@ -251,9 +251,12 @@ func GenLayered(r *vh.Rand, mode string) *Graph {
 		}
 		if r.Chance(55) {
 			// branch ends: next-layer nodes not already reached by a plain edge from this node
+			// (sometimes also nodes this node already feeds by a plain edge: the target is then
+			// named twice among the successors of a finished task)
+			overlap := r.Chance(35)
 			var cands []string
 			for _, k := range next {
-				if !edgeTo[k] {
+				if !edgeTo[k] || overlap {
 					cands = append(cands, k)
 				}
 			}
